@@ -692,6 +692,9 @@ func runRoaring(c *lib.Ctx) {
 	// single goroutine, no garbage collection in between: roaring recycles
 	// blocks through a process wide sync.Pool, so its behaviour depends on
 	// what ran before in the process - keep that order fixed
+	// (one P, no GC: sync.Pool then hands blocks back in a fixed order)
+	procs := runtime.GOMAXPROCS(1)
+	defer runtime.GOMAXPROCS(procs)
 	runtime.LockOSThread()
 	defer runtime.UnlockOSThread()
 	old := debug.SetGCPercent(-1)
